@@ -153,8 +153,20 @@ def corrupt(rnd, text, meta):
             text = ">first" + eol + text
             spans = seq_line_spans(text)
         a, b = rnd.choice(spans)
-        where = rnd.choice(("after", "after", "before_later"))
-        if where == "after" or len(spans) < 2:
+        where = rnd.choice(("after", "after", "before_later", "before_first", "before_first", "prefix_first"))
+        if where == "before_first":
+            # directly behind the first header (optionally after a blank line): no residue has been seen yet
+            a0 = spans[0][0]
+            text = text[:a0] + rnd.choice(("", eol, " " + eol)) + hdr + eol + text[a0:]
+        elif where == "prefix_first":
+            # the single-character corruption '>' in front of the first sequence line turns it into a second header
+            a0 = spans[0][0]
+            line = text[a0:spans[0][1]]
+            a0 += len(line) - len(line.lstrip(" "))
+            text = text[:a0] + ">" + text[a0:]
+            if len(spans) < 2:
+                text = text + eol + "ACDE" + eol
+        elif where == "after" or len(spans) < 2:
             # insert a new line holding the header after this sequence line
             text = text[:b] + eol + hdr + text[b:]
         else:
@@ -279,6 +291,9 @@ def corpus():
     mk("fasta_grouped_numbered", ">sp|P04637\n        1 MEEPQSDPSV EPPLSQETFS 20\n       21 DLWKLLPENN 30\n\n")
     mk("plain_crlf_star", "ACDEFGHIKL\r\nMNPQRSTVWY*\r\n", fault={"chunks": [1], "eio_at": None, "open": None})
     mk("second_header", ">a\nACDEF\n>b\nGHIKL\n")
+    mk("second_header_directly_after_first", ">a\n>b\nACDEF\nGHIKL\n")
+    mk("second_header_after_blank_line", ">a\n\n>b\nACDEF\n")
+    mk("gt_in_front_of_first_sequence_line", ">a\n>ACDEF\nGHIKL\n")
     mk("two_stars", "ACDEF*\nGHIKL*\n")
     mk("two_stars_at_the_end", "ACDEF\nGHIKL**\n")
     mk("two_stars_at_the_end_own_lines", ">h\nACDEF\nGHIKL*\n*\n")
@@ -381,24 +396,21 @@ def execute(plan, ctx):
     import localcider.backend.seqfileparser as sfp
     import localcider.sequenceParameters as spmod
     spmod.print = lambda *a, **k: None
-    import tempfile
-    import shutil
-    fs = SimFS(ctx)
+    fs = SimFS(ctx, prefix="dst_c14_")
     sfp.open = fs.open
     steps = plan.get("steps")
     if steps is None:                      # single-file plan (older replay files)
         steps = [dict(plan, path=PATH)]
     rnd = ctx.streams.stream("exec")
-    # the simulated disk is mirrored into a real scratch directory so that metadata calls on the
-    # path (os.stat, os.path.exists) behave as on a real disk; reads still go through the seam
-    fs.root = tempfile.mkdtemp(prefix="dst_c14_")
+    # the files live in a real scratch directory behind the seam, so metadata calls on the path
+    # (os.stat, os.path.exists) behave as on a real disk
     try:
         for k, step in enumerate(steps):
             do_step(k, step, fs, ctx, rnd, sfp)
             if k:
                 ctx.probe("later_file_in_same_process")
     finally:
-        shutil.rmtree(fs.root, ignore_errors=True)
+        fs.cleanup()
     ctx.count("fs_events", fs.nevents)
 
 
@@ -407,7 +419,7 @@ def do_step(k, plan, fs, ctx, rnd, sfp):
     from localcider.sequencePermutants import SequencePermutants
     meta = plan.get("meta", {})
     fault = plan["fault"]
-    PATHK = fs.root + plan.get("path", PATH)[len("/sim"):]
+    PATHK = fs.path(plan.get("path", PATH))
     fs.faults = []
     fs.chunks = None
     fs.open_faults = {}
@@ -419,7 +431,7 @@ def do_step(k, plan, fs, ctx, rnd, sfp):
         # the writer: writes the file through the simulated disk, possibly crashing mid-write
         if plan.get("torn_at") is not None:
             fs.faults = [{"at": fs.nevents + 2, "kind": "crash", "torn": int(plan["torn_at"])}]
-        if PATHK in fs.files:
+        if fs.exists(PATHK):
             ctx.probe("path_rewritten_with_new_content")
         try:
             fh = fs.open(PATHK, "w", newline="")
@@ -432,8 +444,7 @@ def do_step(k, plan, fs, ctx, rnd, sfp):
             ctx.probe("torn_file")
         fs.restart()
         fs.faults = []
-        fs.mirror(PATHK)
-    durable = bytes(fs.files.get(PATHK, b""))
+    durable = fs.read_file(PATHK)
     ctx.log.emit("durable", k=k, n=len(durable), torn=plan.get("torn_at"))
     if len(durable) > 8192:
         ctx.probe("file_larger_than_io_buffer")
@@ -481,7 +492,6 @@ def do_step(k, plan, fs, ctx, rnd, sfp):
         ctx.probe("open_error")
     elif fault.get("open") == "EISDIR":
         path = fs.root + "/dir"
-        fs.dirs.add(path)
         import os as _os
         _os.makedirs(path, exist_ok=True)
         ctx.fault("fs_open_EISDIR")
